@@ -372,6 +372,16 @@ def c05(pid, tier, replay):
                              "cfg": {"min": mn, "max": mx, "life": -1 if mx <= 600000 else 9000, "quiet": True,
                                      "offset": rng.randrange(0, 977)},
                              "steps": [{"op": "adv", "to": horizon}, {"op": "cancel", "term": rep % 2 == 0}]})
+        # "until stopped": the unsolicited RAs keep coming after whatever the solicited traffic did to the scheduler
+        # (solicitations from :: inside one rate-limit window, from hosts, then silence for many periods)
+        for n, (mn, mx) in enumerate([(3000, 4000), (6000, 8000), (17000, 23000)]):
+            for k, burst in enumerate(([0, 100, 200], [0, 0, 0, 0, 0], [2900, 3000, 3100, 5900], [0, 1500, 3000, 4500, 6000])):
+                steps, t0s = [{"op": "adv", "to": 20000}], 20000
+                for j, d in enumerate(burst):
+                    steps += [{"op": "adv", "to": t0s + d}, {"op": "rs", "src": "unspec" if j % 3 != 2 else "fe80::a1"}]
+                steps += [{"op": "adv", "to": t0s + 10 * (mx + 1000)}, {"op": "cancel", "term": False}]
+                scen.append({"id": "C05-burst-%d-%d" % (n, k), "cfg": {"min": mn, "max": mx, "life": -1, "offset": rng.randrange(0, 977)},
+                             "steps": steps})
         # long sessions: the index of the advertisement keeps growing (an index that wraps re-applies the initial cap)
         longs = [((17000, 23000), 300), ((30000, 40000), 600)] + ([((200000, 600000), 300), ((17000, 23000), 70000)] if thorough else [])
         for n, ((mn, mx), periods) in enumerate(longs):
